@@ -401,15 +401,38 @@ pub struct Engine<'a> {
     pub rng: Rng,
     pub start: Instant,
     pub prev_run: Option<String>,
+    pub stopped_noted: bool,
+    pub escalations: usize,
 }
 
 impl<'a> Engine<'a> {
     fn out_of_budget(&self) -> bool {
         self.args.budget_ms > 0 && self.start.elapsed().as_millis() as u64 > self.args.budget_ms
     }
+    /// Stop exploring: time budget used up, or the verdict is already clear (many violations).
+    fn stop(&mut self) -> bool {
+        if self.stats.viol_count >= 25 {
+            if !self.stopped_noted {
+                self.stopped_noted = true;
+                self.stats.inconclusive.push("25 violations recorded in this shard; remaining workload skipped".into());
+            }
+            return true;
+        }
+        if self.out_of_budget() {
+            if !self.stopped_noted {
+                self.stopped_noted = true;
+                self.stats.inconclusive.push("time budget of the shard reached; remaining workload skipped".into());
+            }
+            return true;
+        }
+        false
+    }
 
     /// One monitored execution, including the bounded-progress re-runs for expiries.
-    fn exec(&mut self, cx: &CaseCtx, plan: &Plan, sched: &Sched, nontrivial: bool) -> (RunRec, Vec<Note>, Exp) {
+    fn exec(&mut self, cx: &CaseCtx, plan: &Plan, sched: &Sched, nontrivial: bool) -> Option<(RunRec, Vec<Note>, Exp)> {
+        if self.stop() {
+            return None;
+        }
         let exp = model::run(cx.case.prog, cx.case.kind, cx.case.hk, plan);
         let mut sched = sched.clone();
         if sched.bound_ms == 0 {
@@ -424,7 +447,15 @@ impl<'a> Engine<'a> {
             println!("TIME {} us", t0.elapsed().as_micros());
         }
         // bounded-progress rule: an expiry only counts after three consistent expiries at growing bounds
+        if let (Outcome::Hung(first), true) = (rec.outcome.clone(), self.escalations >= 2) {
+            // the bounded-progress rule was already applied twice in this shard; further expiries are not
+            // escalated (and therefore not judged)
+            self.stats.inconclusive.push(format!("{} plan={}: expiry not escalated ({})", case_name(cx.case), plan_str(plan), first));
+            self.stats.runs += 1;
+            return None;
+        }
         if let Outcome::Hung(first) = rec.outcome.clone() {
+            self.escalations += 1;
             let mut consistent = true;
             for b in [10_000u64, 30_000] {
                 let mut s2 = sched.clone();
@@ -503,7 +534,7 @@ impl<'a> Engine<'a> {
                 ("trace", esc(&trace_str(&rec.log[..rec.log.len().min(40)]))),
             ]));
         }
-        (rec, notes, exp)
+        Some((rec, notes, exp))
     }
 
     fn depth_profile(c: &Case) -> Vec<usize> {
@@ -523,8 +554,7 @@ impl<'a> Engine<'a> {
                 // (and by the multiset / panic monitors), not by the other result monitors
                 continue;
             }
-            if self.out_of_budget() {
-                self.stats.inconclusive.push("time budget of the shard reached; remaining cases skipped".into());
+            if self.stop() {
                 break;
             }
             let c = cx.case;
@@ -611,7 +641,10 @@ impl<'a> Engine<'a> {
                             let gp = with_gates(&p, &gates);
                             for pr in ps {
                                 let s = Sched { prio: pr, batch: 1, grace_us: if kind.is_threads() { 300 } else { 0 }, ..default.clone() };
-                                let (rec, _, _) = self.exec(cx, &gp, &s, nt);
+                                let rec = match self.exec(cx, &gp, &s, nt) {
+                                    Some(r) => r.0,
+                                    None => continue,
+                                };
                                 if rec.max_held >= 1 && nt {
                                     self.stats.bump("runs_with_branch_held_across_sibling_step_end", 1);
                                 }
@@ -635,8 +668,9 @@ impl<'a> Engine<'a> {
                         let gp = with_gates(&vec![], &gates);
                         for pr in ps {
                             let s = Sched { prio: pr, batch: 1, grace_us: 200, caller: caller.clone(), ..default.clone() };
-                            let (rec, _, _) = self.exec(cx, &gp, &s, n >= 2);
-                            self.stats.bump(&format!("arrival_set_size:{}", rec.max_held), 1);
+                            if let Some((rec, _, _)) = self.exec(cx, &gp, &s, n >= 2) {
+                                self.stats.bump(&format!("arrival_set_size:{}", rec.max_held), 1);
+                            }
                         }
                     }
                     // ungated runs with random delays: uncontrolled interleavings
@@ -671,9 +705,10 @@ impl<'a> Engine<'a> {
                                 let batch = [1usize, 1, 2, 0][pi % 4];
                                 let spurious = pi % 3 == 1;
                                 let s = Sched { prio: pr, batch, spurious, ..default.clone() };
-                                let (rec, _, _) = self.exec(cx, &gp, &s, ngates >= 2);
-                                if rec.decisions >= 2 {
-                                    self.stats.bump("runs_with_2plus_release_decisions", 1);
+                                if let Some((rec, _, _)) = self.exec(cx, &gp, &s, ngates >= 2) {
+                                    if rec.decisions >= 2 {
+                                        self.stats.bump("runs_with_2plus_release_decisions", 1);
+                                    }
                                 }
                             }
                         }
@@ -791,8 +826,7 @@ impl<'a> Engine<'a> {
         }
         let default = Sched { bound_ms: 2000, caller: Some("main".into()), ..Default::default() };
         for (_, group) in by_prog {
-            if self.out_of_budget() {
-                self.stats.inconclusive.push("time budget of the shard reached; remaining cases skipped".into());
+            if self.stop() {
                 break;
             }
             let mut rng = Rng::new(self.args.seed ^ group[0].case.prog.id as u64);
@@ -803,8 +837,16 @@ impl<'a> Engine<'a> {
             for p in plans {
                 let mut res: HashMap<(Kind, Option<HK>), (Outcome, Vec<(u16, Vec<u16>)>, Vec<Ev>, Vec<Option<String>>)> = HashMap::new();
                 for cx in &group {
-                    let (rec, _, _) = self.exec(cx, &p, &default, true);
-                    let mut calls: Vec<(u16, Vec<u16>)> = rec.log.iter().filter(|e| matches!(e.k, K::Call | K::Hnd | K::Join)).map(|e| (e.id, e.h.clone())).collect();
+                    let rec = match self.exec(cx, &p, &default, true) {
+                        Some(r) => r.0,
+                        None => continue,
+                    };
+                    // the root flag (caller's task vs spawned task) is part of the per-branch trace
+                    let mut calls: Vec<(u16, Vec<u16>)> = rec.log.iter().filter(|e| matches!(e.k, K::Call | K::Hnd | K::Join)).map(|e| {
+                        let mut h = e.h.clone();
+                        h.push(if e.root { 0xFFF1 } else { 0xFFF2 });
+                        (e.id, h)
+                    }).collect();
                     // per-branch order is what matters; sort by (branch, seq) using a stable key
                     let idx = &cx.idx;
                     calls.sort_by_key(|(id, _)| idx.get(*id as usize).and_then(|m| m.as_ref()).map(|m| (m.step, m.branch)).unwrap_or((usize::MAX, 0)));
@@ -815,7 +857,10 @@ impl<'a> Engine<'a> {
                 }
                 for cx in &group {
                     let k = cx.case.kind;
-                    let me = &res[&(k, cx.case.hk)];
+                    let me = match res.get(&(k, cx.case.hk)) {
+                        Some(m) => m,
+                        None => continue,
+                    };
                     let mut cmp = |other: Kind, exact: bool, stats: &mut Stats| {
                         if let Some(o) = res.get(&(other, cx.case.hk)) {
                             let exp = model::run(cx.case.prog, k, cx.case.hk, &p);
@@ -878,7 +923,7 @@ pub fn main(cases: &'static [Case]) {
     quiet_panics();
     crate::log::mark_harness_thread();
     let ctxs: Vec<CaseCtx> = cases.iter().map(|c| CaseCtx { case: c, idx: model::index(c.prog) }).collect();
-    let mut eng = Engine { args: &args, stats: Stats::default(), rng: Rng::new(args.seed), start: Instant::now(), prev_run: None };
+    let mut eng = Engine { args: &args, stats: Stats::default(), rng: Rng::new(args.seed), start: Instant::now(), prev_run: None, stopped_noted: false, escalations: 0 };
     if let Some(r) = &args.replay {
         let parts: Vec<&str> = r.split('|').collect();
         let name = parts[0];
@@ -889,7 +934,7 @@ pub fn main(cases: &'static [Case]) {
             if case_name(cx.case) == name {
                 found = true;
                 let a2 = Args { trace: true, ..parse_args() };
-                let mut e2 = Engine { args: &a2, stats: Stats::default(), rng: Rng::new(args.seed), start: Instant::now(), prev_run: None };
+                let mut e2 = Engine { args: &a2, stats: Stats::default(), rng: Rng::new(args.seed), start: Instant::now(), prev_run: None, stopped_noted: false, escalations: 0 };
                 e2.exec(cx, &plan, &sched, true);
                 for v in &e2.stats.viols {
                     println!("VIOLATION-DETAIL [{}] {}", v.tag, v.msg);
